@@ -55,6 +55,7 @@ func (t *Timer) arm(d time.Duration) {
 	} else {
 		c := t.c
 		t.cancel = vrt.AddTimer(int64(d), "Timer", func() {
+			vrt.ReleaseMerge(vrt.ChanAddr(c))
 			select {
 			case c <- Now():
 			default:
@@ -75,10 +76,11 @@ func NewTimer(d time.Duration) *Timer {
 
 func AfterFunc(d time.Duration, f func()) *Timer {
 	t := &Timer{f: f}
+	t.arm(d)
 	if vrt.Active() {
+		// the scheduling point comes after arming: the timer may fire before the caller continues
 		vrt.Point(vrt.KTime, 0)
 	}
-	t.arm(d)
 	return t
 }
 
@@ -120,6 +122,7 @@ type Ticker struct {
 
 func (t *Ticker) arm() {
 	t.cancel = vrt.AddTimer(int64(t.d), "Ticker", func() {
+		vrt.ReleaseMerge(vrt.ChanAddr(t.c))
 		select {
 		case t.c <- Now():
 		default:
